@@ -106,6 +106,12 @@ def program_source(nodes: List[Dict[str, Any]], task_deps: List[Any], task: Dict
              "    if slp:\n        await asyncio.sleep(slp)\n"
              "    LOG('echo', 'plain', ctx.message.task_id, ctx.message.args[0] if ctx.message.args else None, ctx.message.labels.get('who'))\n"
              "    return me")
+    # a task without any dependency and with an optional keyword argument most messages leave out
+    L.append("async def nodeps(me=None, slp=0, footer=None):\n"
+             "    LOG('footer', 'nodeps', me, footer)\n"
+             "    if slp:\n        await asyncio.sleep(slp)\n"
+             "    LOG('footer', 'nodeps', me, footer)\n"
+             "    return me")
     return "\n\n".join(L)
 
 
